@@ -513,7 +513,13 @@ func (t *tkRun) monitorSession(path string, f tkFacts, audience string, id tkIde
 	cl := t.lastClaims
 	input := map[string]interface{}{"path": path, "env": t.name, "case": t.cur.tag, "claims": cl, "facts": f, "session": id, "observed_at": where,
 		"cfg": fmt.Sprintf("%+v", t.e.cfg), "profile": t.cur.profile}
-	bad := func(what string) { t.c.violation("C04", what+" ["+path+", observed at "+where+"]", input) }
+	bad := func(what string) {
+		t.c.violation("C04", what+" ["+path+", observed at "+where+"]", input)
+		if path == "br" || path == "ex" {
+			// the bearer token was the request's only credential and the request was answered as authenticated
+			t.c.violation("C01", "a request whose only credential is a bearer token that must not be accepted was treated as authenticated: "+what+" ["+path+", observed at "+where+"]", input)
+		}
+	}
 	if !f.SigOK {
 		bad("session created from a token that is not RS256-signed by the issuer's key (sign=" + t.cur.sign + ")")
 	}
